@@ -26,7 +26,16 @@ type World struct {
 	MutGlob  map[*ssa.Global]bool // globals stored to outside init (or address escaping)
 	SpecSigs map[string]SpecSig   // SMT spec functions from /verif/spec/*.smt2
 	SpecText string
+	SpecItems []SpecItem
 	LoadSecs float64
+}
+
+// SpecItem is one top-level form of a spec file.  Assertions (axioms/lemmas) are included in a query only when the
+// symbols that trigger them occur in it, so that queries not using them stay quantifier-free.
+type SpecItem struct {
+	Text     string
+	IsAssert bool
+	Needs    []string // for asserts: spec symbols that must be referenced (";@for name" or the spec symbols it mentions)
 }
 
 type SpecSig struct {
@@ -145,6 +154,7 @@ func LoadWorld(repo, verif string, patterns []string) (*World, error) {
 		parseSpecSigs(string(data), w.SpecSigs)
 	}
 	w.SpecText = sb.String()
+	w.SpecItems = splitSpecItems(w.SpecText, w.SpecSigs)
 	return w, nil
 }
 
@@ -331,4 +341,68 @@ func (w *World) lookupObject(name, pkgPath string) types.Object {
 		}
 	}
 	return nil
+}
+
+func splitSpecItems(text string, sigs map[string]SpecSig) []SpecItem {
+	var items []SpecItem
+	i := 0
+	pendingFor := ""
+	for i < len(text) {
+		c := text[i]
+		switch {
+		case c == ';':
+			j := i
+			for j < len(text) && text[j] != '\n' {
+				j++
+			}
+			line := text[i:j]
+			if strings.HasPrefix(line, ";@for ") {
+				pendingFor = strings.TrimSpace(strings.TrimPrefix(line, ";@for "))
+			}
+			i = j
+		case c == '(':
+			depth := 0
+			j := i
+			for j < len(text) {
+				if text[j] == ';' {
+					for j < len(text) && text[j] != '\n' {
+						j++
+					}
+					continue
+				}
+				if text[j] == '(' {
+					depth++
+				} else if text[j] == ')' {
+					depth--
+					if depth == 0 {
+						j++
+						break
+					}
+				}
+				j++
+			}
+			form := text[i:j]
+			it := SpecItem{Text: form}
+			if strings.HasPrefix(form, "(assert") {
+				it.IsAssert = true
+				if pendingFor != "" {
+					it.Needs = strings.Fields(pendingFor)
+				} else {
+					seen := map[string]bool{}
+					for _, tok := range sexpTokens(form) {
+						if _, ok := sigs[tok]; ok && !seen[tok] {
+							seen[tok] = true
+							it.Needs = append(it.Needs, tok)
+						}
+					}
+				}
+			}
+			pendingFor = ""
+			items = append(items, it)
+			i = j
+		default:
+			i++
+		}
+	}
+	return items
 }
